@@ -6,7 +6,14 @@
    if both components match (top-level patterns: with at most one wildcard);
    [rank] orders patterns exact > local name only > namespace only > bare
    wildcard; [registered ops t typ p h] says that the options given to mux.New
-   contain Handle / IQ / Message / Presence (typ, p, handler h) for table t. *)
+   contain Handle / IQ / Message / Presence (typ, p, handler h) for table t.
+
+   Readers: the token reader handed to HandleXMPP is a token list plus a
+   terminal condition tm : term (C14/Model.v) - it ends with io.EOF or with
+   another error (t_err), reported by a separate later call or TOGETHER WITH
+   THE LAST TOKEN (t_with), as xml.TokenReader permits and readers built with
+   xmlstream.Wrap or stanza.Message.Wrap do.  Every theorem below that mentions
+   tm holds for all four. *)
 From XV Require Import lib.Bytes gen.Mux C14.Model C14.Proofs.
 
 (* Every lookup (Handler, IQHandler, MessageHandler, PresenceHandler) returns the
@@ -34,27 +41,29 @@ Print Assumptions C14_choice_is_unique.
 (* Top-level dispatch: a matching top-level pattern wins over everything (its
    handler runs once, on the element's own tokens); an element that is not a
    stanza of the mux's namespace and matches nothing is ignored. *)
-Theorem C14_top_level_dispatch : forall ops r ns sn attrs toks uerr script,
+Theorem C14_top_level_dispatch : forall ops r ns sn attrs toks tm script,
   new_mux ops = Some r -> valid_ids ops ->
   match lookup_top r sn with
   | Some h =>
-      handle r ns sn attrs toks uerr script =
+      handle r ns sn attrs toks tm script =
       let b := fst (next_beh script) in mkout [EvTop h sn (firstn (hb_reads b) toks)] [] (ret_of b)
-  | None => stanza_is sn ns = false -> handle r ns sn attrs toks uerr script = out_nothing
+  | None => stanza_is sn ns = false -> handle r ns sn attrs toks tm script = out_nothing
   end.
 Proof. exact thm_top_level. Qed.
 Print Assumptions C14_top_level_dispatch.
 
 (* IQs: the handler chosen (by C14_most_specific) for the IQ's type and the name
    of its first payload element - leading whitespace skipped - runs exactly once
-   and can read the rest of the IQ's content, never its end tag. *)
-Theorem C14_iq_dispatch : forall ops r ns sn attrs toks uerr script h n rest hd,
+   and can read the rest of the IQ's content, never its end tag.  (rest <> []:
+   the payload's start element is not the reader's last token, as in every IQ
+   that is closed.) *)
+Theorem C14_iq_dispatch : forall ops r ns sn attrs toks tm script h n rest hd,
   new_mux ops = Some r -> valid_ids ops ->
   lookup_top r sn = None -> stanza_is sn ns = true -> snd sn = str "iq" ->
   new_iq sn attrs = Some h ->
-  drop_ws toks = TStart n :: rest ->
+  drop_ws toks = TStart n :: rest -> rest <> [] ->
   lookup_iq r (h_type h) n = Some hd ->
-  handle r ns sn attrs toks uerr script =
+  handle r ns sn attrs toks tm script =
   let b := fst (next_beh script) in
   mkout [EvIq hd (h_type h) (Some n) (firstn (hb_reads b) (until_close 1 rest))] [] (ret_of b).
 Proof. exact thm_iq_dispatch. Qed.
@@ -65,94 +74,105 @@ Print Assumptions C14_iq_dispatch.
    handler and is answered by exactly one service-unavailable error with swapped
    addresses if it is a get or a set, and by nothing otherwise. *)
 Definition C14_defaults_statement : Prop :=
-  forall r ns sn attrs toks uerr script h, iq_defaults_at r ns sn attrs toks uerr script h.
+  forall r ns sn attrs toks tm script h, iq_defaults_at r ns sn attrs toks tm script h.
 
 (* Proved for the four IQ types of RFC 6120. *)
-Theorem C14_defaults_partial : forall r ns sn attrs toks uerr script h,
+Theorem C14_defaults_partial : forall r ns sn attrs toks tm script h,
   In (h_type h) [str "get"; str "set"; str "result"; str "error"] ->
-  iq_defaults_at r ns sn attrs toks uerr script h.
+  iq_defaults_at r ns sn attrs toks tm script h.
 Proof. exact thm_defaults_partial. Qed.
 Print Assumptions C14_defaults_partial.
 
 (* False as stated for the code as it is: an IQ whose type attribute is missing
    (or not one of the four) is answered too (pinned by mux's TestFallback). *)
 Theorem C14_defaults_refuted :
-  exists r ns sn attrs toks uerr script h, ~ iq_defaults_at r ns sn attrs toks uerr script h.
+  exists r ns sn attrs toks tm script h, ~ iq_defaults_at r ns sn attrs toks tm script h.
 Proof. exact thm_defaults_refuted. Qed.
 Print Assumptions C14_defaults_refuted.
 
 (* Defaults for messages and presences: the mux never writes anything, and runs
    nothing when no child selects a handler (and, for an empty stanza, there is
    no type wildcard). *)
-Theorem C14_defaults_children_write_nothing : forall r ns sn attrs toks uerr script k h,
+Theorem C14_defaults_children_write_nothing : forall r ns sn attrs toks tm script k h,
   lookup_top r sn = None -> stanza_is sn ns = true -> snd sn = child_local k -> child_hdr k sn attrs = Some h ->
-  o_replies (handle r ns sn attrs toks uerr script) = [].
+  o_replies (handle r ns sn attrs toks tm script) = [].
 Proof. exact thm_children_defaults. Qed.
 Print Assumptions C14_defaults_children_write_nothing.
 
-Theorem C14_defaults_children_unhandled : forall ops r ns sn attrs toks uerr script k h rest,
+Theorem C14_defaults_children_unhandled : forall ops r ns sn attrs toks tm script k h rest,
   new_mux ops = Some r -> valid_ids ops ->
   lookup_top r sn = None -> stanza_is sn ns = true -> snd sn = child_local k -> child_hdr k sn attrs = Some h ->
   skip_elem 0 toks = Some rest ->
   (forall n, In n (child_names 0 toks) -> lookup_child r k (h_type h) n = None) ->
   (forall t', toks = TEnd :: t' -> lookup_child r k (h_type h) ([], []) = None) ->
-  handle r ns sn attrs toks uerr script = out_nothing.
+  handle r ns sn attrs toks tm script = out_nothing.
 Proof. exact thm_children_unhandled. Qed.
 Print Assumptions C14_defaults_children_unhandled.
 
 (* Messages and presences (k): for every token sequence in which the stanza is
    closed, every script of handler behaviours (how many tokens each invoked
-   handler reads, whether it fails) and either terminal condition of the reader,
+   handler reads, whether it fails) and every terminal condition of the reader
+   (in particular: the stanza's end element returned together with io.EOF),
    what forChildren does - bufReader offsets, Inner/InnerElement counters, Iter
    with draining, the "buffer has length 2" rule - equals [children_spec]: one
    invocation per element child whose name selects a handler, in document
    order, each given the first (as many as it reads) tokens of the WHOLE stanza
    starting at its start element; an error iff one of them failed. *)
-Theorem C14_child_dispatch_replays_whole_stanza : forall ops r ns sn attrs toks uerr script k h rest,
+Theorem C14_child_dispatch_replays_whole_stanza : forall ops r ns sn attrs toks tm script k h rest,
   new_mux ops = Some r -> valid_ids ops ->
   lookup_top r sn = None -> stanza_is sn ns = true -> snd sn = child_local k -> child_hdr k sn attrs = Some h ->
   skip_elem 0 toks = Some rest ->
-  handle r ns sn attrs toks uerr script = children_spec r k sn (h_type h) toks script.
+  handle r ns sn attrs toks tm script = children_spec r k sn (h_type h) toks script.
 Proof. exact thm_children. Qed.
 Print Assumptions C14_child_dispatch_replays_whole_stanza.
 
 (* ... in particular every handler that runs is handed a prefix of the complete
    stanza, from its start element, regardless of what other handlers consumed *)
 Theorem C14_every_child_handler_sees_the_stanza_from_its_start :
-  forall ops r ns sn attrs toks uerr script k h rest e,
+  forall ops r ns sn attrs toks tm script k h rest e,
   new_mux ops = Some r -> valid_ids ops ->
   lookup_top r sn = None -> stanza_is sn ns = true -> snd sn = child_local k -> child_hdr k sn attrs = Some h ->
   skip_elem 0 toks = Some rest ->
-  In e (o_events (handle r ns sn attrs toks uerr script)) ->
+  In e (o_events (handle r ns sn attrs toks tm script)) ->
   exists hd n, e = child_event k hd (h_type h) (firstn n (TStart sn :: toks)).
 Proof. exact thm_children_whole_stanza. Qed.
 Print Assumptions C14_every_child_handler_sees_the_stanza_from_its_start.
 
 (* ... and the handlers that run are those selected by the element children, in order *)
-Theorem C14_child_handlers_are_the_selected_ones : forall ops r ns sn attrs toks uerr script k h rest,
+Theorem C14_child_handlers_are_the_selected_ones : forall ops r ns sn attrs toks tm script k h rest,
   new_mux ops = Some r -> valid_ids ops ->
   lookup_top r sn = None -> stanza_is sn ns = true -> snd sn = child_local k -> child_hdr k sn attrs = Some h ->
   skip_elem 0 toks = Some rest -> (forall t', toks <> TEnd :: t') ->
-  map event_hid (o_events (handle r ns sn attrs toks uerr script)) = chosen r k (h_type h) (child_names 0 toks).
+  map event_hid (o_events (handle r ns sn attrs toks tm script)) = chosen r k (h_type h) (child_names 0 toks).
 Proof. exact thm_children_chosen. Qed.
 Print Assumptions C14_child_handlers_are_the_selected_ones.
 
 (* Invariant behind the replay: a reader whose buffer is a prefix of the stanza,
    with the underlying reader right behind it, hands out the next k tokens of
    the stanza and keeps the invariant (buffer only grows). *)
-Theorem C14_replay_buffer_invariant : forall uerr all k b v,
+Theorem C14_replay_buffer_invariant : forall tm all k b v,
   Inv all b v ->
-  exists b', take_n (b_token uerr) k b = (firstn k v, b') /\ Inv all b' (skipn k v) /\
+  exists b', take_n (b_token tm) k b = (firstn k v, b') /\ Inv all b' (skipn k v) /\
              length (b_buf b) <= length (b_buf b').
 Proof. exact take_n_b. Qed.
 Print Assumptions C14_replay_buffer_invariant.
 
+(* At the end of its buffer bufReader.Token fetches a token from the underlying
+   reader, appends it to the buffer and hands it on together with the error
+   that came with it - also when that token is the reader's last one and comes
+   with io.EOF or another error (fin_err tm [] = Some _ for such readers). *)
+Theorem C14_token_with_error_is_buffered : forall tm b x u,
+  b_off b = length (b_buf b) -> b_und b = x :: u ->
+  b_token tm b = RTok x (fin_err tm u) (mkbr (b_buf b ++ [x]) (S (b_off b)) u).
+Proof. exact b_token_fetch. Qed.
+Print Assumptions C14_token_with_error_is_buffered.
+
 (* An empty message or presence goes to the type wildcard of its type (and only
    there), which is offered the whole (two-token) stanza. *)
-Theorem C14_empty_stanza_to_wildcard : forall ops r ns sn attrs rest uerr script k h,
+Theorem C14_empty_stanza_to_wildcard : forall ops r ns sn attrs rest tm script k h,
   new_mux ops = Some r -> valid_ids ops ->
   lookup_top r sn = None -> stanza_is sn ns = true -> snd sn = child_local k -> child_hdr k sn attrs = Some h ->
-  handle r ns sn attrs (TEnd :: rest) uerr script =
+  handle r ns sn attrs (TEnd :: rest) tm script =
   match lookup_child r k (h_type h) ([], []) with
   | None => out_nothing
   | Some hd =>
@@ -161,6 +181,17 @@ Theorem C14_empty_stanza_to_wildcard : forall ops r ns sn attrs rest uerr script
   end.
 Proof. exact thm_empty_stanza. Qed.
 Print Assumptions C14_empty_stanza_to_wildcard.
+
+(* ... and that lookup - made with the zero name, not with the stanza's own -
+   finds exactly the registered bare type wildcard, for every set of registered
+   patterns: a pattern with a name (for instance the stanza element's own local
+   name "message" or its name space jabber:client, registered for payloads such
+   as body or show) is never chosen for the empty stanza. *)
+Theorem C14_empty_stanza_lookup_is_the_bare_wildcard : forall ops r k typ hd,
+  new_mux ops = Some r ->
+  (lookup_child r k typ ([], []) = Some hd <-> registered ops (child_tbl k) typ ([], []) hd).
+Proof. exact wildcard_lookup_registered. Qed.
+Print Assumptions C14_empty_stanza_lookup_is_the_bare_wildcard.
 
 (* Registration: a nil handler, a nil func through a Func wrapper, a top-level
    pattern with a stanza name, or a pattern registered twice make mux.New panic;
@@ -200,9 +231,13 @@ Theorem C14_tables :
   (iq_stanza = reg_iq_stanza /\ msg_stanza = reg_message_stanza /\ pres_stanza = reg_presence_stanza) /\
   (fallback_silent_types = [str "error"; str "result"] /\ fallback_swaps_addresses = true /\
    fallback_reply_type = str "error" /\ fallback_error_type = str "cancel" /\
-   fallback_condition = str "service-unavailable").
+   fallback_condition = str "service-unavailable") /\
+  (child_lookup_arg_message = NsChild /\ child_lookup_arg_presence = NsChild /\
+   wildcard_lookup_arg_message = NsZero /\ wildcard_lookup_arg_presence = NsZero) /\
+  bufreader_buffers_token_with_error = true.
 Proof.
   exact (conj (conj top_cascade_eq (conj iq_cascade_eq (conj msg_cascade_eq pres_cascade_eq)))
-        (conj reg_flags (conj func_guards (conj stanza_keys_agree fallback_tables)))).
+        (conj reg_flags (conj func_guards (conj stanza_keys_agree (conj fallback_tables
+        (conj lookup_args bufreader_buffers)))))).
 Qed.
 Print Assumptions C14_tables.
